@@ -30,6 +30,17 @@ def run(run, replay=None):
     for n in range(700 if quick else 20000):
         h = domdriver.History(cat)
         tid = domgen.build_tree(h, rng, via_attrs=rng.random() < 0.5)
+        if rng.random() < 0.4:
+            # observe the half-built tree (serialise / compare / iterate), then keep building
+            h.ser(tid)
+            h.cmp(tid, tid)
+            t = h.trees[tid - 1]
+            for ci in range(1, len(t.changes) + 1):
+                if rng.random() < 0.6:
+                    h.addf(tid, ci, **domgen.rand_container_attrs(rng, 2))
+            if rng.random() < 0.5:
+                h.addc(tid, **domgen.rand_container_attrs(rng, 1))
+                h.addf(tid, len(t.changes), **domgen.rand_container_attrs(rng, 2))
         e = h.ser(tid)
         if e['status'] == 'ok':
             h.parse(bytes(e['bytes']))
